@@ -15,6 +15,7 @@ import json
 import os
 import re
 import subprocess
+import tempfile
 import sys
 import time
 
@@ -28,7 +29,8 @@ NCPU = 16
 
 ALLOWED_AXIOMS = set()  # by name; nothing is expected: "Closed under the global context"
 FORBIDDEN = re.compile(
-    r"\b(Admitted|admit|Axiom|Axioms|Parameter|Parameters|Conjecture|Admit Obligations|bypass_check)\b"
+    r"\b(Admitted|admit|Axiom|Axioms|Parameter|Parameters|Conjecture|Conjectures|Admit Obligations|bypass_check|Declare Instance)\b"
+    r"|\bExtract\s+(Inlined\s+)?(Constant|Inductive)\b"
     r"|Unset\s+Guard|Unset\s+Positivity|Unset\s+Universe|type-in-type|impredicative-set"
 )
 
@@ -38,14 +40,23 @@ def sh(cmd, timeout=1200, cwd=None, env=None, inp=None):
     e.update({"CARGO_NET_OFFLINE": "true", "LC_ALL": "C"})
     if env:
         e.update(env)
+    p = subprocess.Popen(cmd, shell=isinstance(cmd, str), cwd=cwd, env=e, stdin=subprocess.PIPE if inp is not None else None,
+                         stdout=subprocess.PIPE, stderr=subprocess.STDOUT, universal_newlines=True, errors="replace",
+                         start_new_session=True)
     try:
-        p = subprocess.run(
-            cmd, shell=isinstance(cmd, str), cwd=cwd, env=e, timeout=timeout, input=inp,
-            stdout=subprocess.PIPE, stderr=subprocess.STDOUT, universal_newlines=True, errors="replace",
-        )
-        return p.returncode, p.stdout
-    except subprocess.TimeoutExpired as ex:
-        return 124, (ex.stdout or "") + "\n[timeout after %ss]" % timeout
+        out, _ = p.communicate(input=inp, timeout=timeout)
+        return p.returncode, out
+    except subprocess.TimeoutExpired:
+        # the shell AND everything it started (an orphan coqc / cargo would keep writing while the lock is released)
+        try:
+            os.killpg(p.pid, 9)
+        except OSError:
+            p.kill()
+        try:
+            out, _ = p.communicate(timeout=10)
+        except Exception:
+            out = ""
+        return 124, (out or "") + "\n[timeout after %ss]" % timeout
 
 
 class Lock:
@@ -235,7 +246,19 @@ def check_proofs(ctx, extra_props=()):
                 except OSError:
                     pass
             t = 3000 if ctx.thorough else 1500
+            # first the cone (dependencies may print their own Print Assumptions output), then the property file
+            # alone, so that the blocks read below are exactly those of THIS file, in the order of its commands
             rc, out = sh("make -j%d %so" % (NCPU, vfile), cwd=COQ, timeout=t)
+            if rc == 0:
+                for ext in (".vo", ".glob", ".vos", ".vok"):
+                    try:
+                        os.remove(os.path.join(COQ, vfile[:-2] + ext))
+                    except OSError:
+                        pass
+                rc, out = sh("make -j%d %so" % (NCPU, vfile), cwd=COQ, timeout=t)
+                compiled = re.findall(r"^COQC\s+(\S+)", out, re.M)
+                if rc == 0 and compiled != [vfile]:
+                    rc, out = 1, "expected to compile only %s in the second pass, compiled %s\n%s" % (vfile, compiled, out[-2000:])
             if rc != 0:
                 ctx.log("coq build failed for %s:\n%s" % (prop, out[-3000:]))
                 for n in names or [prop]:
@@ -247,17 +270,24 @@ def check_proofs(ctx, extra_props=()):
             blocks = re.split(r"(?=Closed under the global context|Axioms:|Section Variables:)", out)
             blocks = [b for b in blocks if b.startswith(("Closed", "Axioms:", "Section Variables:"))]
             res = {}
+            if len(blocks) != len(asked):
+                ctx.log("%s: %d Print Assumptions commands but %d result blocks" % (prop, len(asked), len(blocks)))
+                ctx.obligations.append(("print_assumptions_blocks_" + prop, False, "%d commands, %d result blocks" % (len(asked), len(blocks))))
+                ok_all = False
             for i, n in enumerate(asked):
                 if i < len(blocks):
                     b = blocks[i]
                     if b.startswith("Closed"):
                         res[n] = (True, "Closed under the global context")
                     else:
-                        axs = set(re.findall(r"^([A-Za-z0-9_'.]+)\s*:", b, re.M))
+                        axs = set(re.findall(r"^([A-Za-z0-9_'.]+)\s*:", b, re.M)) - {"Axioms", "Section Variables"}
                         okb = axs and axs <= ALLOWED_AXIOMS
                         res[n] = (bool(okb), "axioms: " + ", ".join(sorted(axs)))
                 else:
                     res[n] = (False, "no Print Assumptions output")
+            if not names:
+                ctx.obligations.append((prop, False, "no Theorem in " + vfile))
+                ok_all = False
             for n in names:
                 if n in res:
                     ctx.obligations.append((n, res[n][0], res[n][1]))
@@ -275,19 +305,38 @@ def check_proofs(ctx, extra_props=()):
         pins = json.load(open(pins_p)) if os.path.exists(pins_p) else {}
         for prop in props:
             src = os.path.join(COQ, "theories/Properties/%s.v" % prop)
-            if os.path.exists(src) and prop in pins:
+            if os.path.exists(src):
                 h = hashlib.sha256(open(src, "rb").read()).hexdigest()
-                if h != pins[prop]:
-                    ctx.obligations.append(("pinned_statements_" + prop, False, "Properties/%s.v differs from pinned hash" % prop))
+                if pins.get(prop) != h:
+                    ctx.obligations.append(("pinned_statements_" + prop, False,
+                                            "Properties/%s.v %s" % (prop, "differs from pinned hash" if prop in pins else "has no pinned hash (run bin/pin)")))
                     ok_all = False
-    if ctx.thorough:
-        rc, out = sh("coqchk -silent -o -Q theories Crusta Crusta.Properties.%s" % ctx.prop, cwd=COQ, timeout=3000)
-        tail = out[-1500:]
-        ctx.cov["coqchk"] = {"rc": rc, "tail": tail}
-        if rc != 0:
-            ctx.obligations.append(("coqchk", False, tail[-300:]))
+        # the definitions the statements are written in (semantics, CNF, SAT-program monad, executable model, *Defs.v)
+        changed = [k for k, h in pinned_definition_files().items() if pins.get(k) != h]
+        if changed:
+            ctx.obligations.append(("pinned_definitions", False, "definition files differ from the pinned hashes (or are not pinned): " + ", ".join(changed[:8])))
             ok_all = False
+        if ctx.thorough:
+            # inside the lock: another check may delete / rebuild Properties/*.vo meanwhile
+            rc, out = sh("coqchk -silent -o -Q theories Crusta Crusta.Properties.%s" % ctx.prop, cwd=COQ, timeout=3000)
+            tail = out[-1500:]
+            ctx.cov["coqchk"] = {"rc": rc, "tail": tail}
+            if rc != 0 or "Axioms: <none>" not in out:
+                ctx.obligations.append(("coqchk", False, tail[-300:]))
+                ok_all = False
     return ok_all
+
+
+def pinned_definition_files():
+    """relative path (without .v) -> sha256 of the files that DEFINE the vocabulary of the theorem statements"""
+    import glob as _glob
+    res = {}
+    pats = ["Spec/*.v", "Sat/*.v", "Model/*.v", "Proofs/*Defs.v", "Proofs/SolverBasics.v", "Proofs/TopBase.v", "Proofs/TopMax.v"]
+    for pat in pats:
+        for f in sorted(_glob.glob(os.path.join(COQ, "theories", pat))):
+            rel = os.path.relpath(f, os.path.join(COQ, "theories"))[:-2]
+            res[rel] = hashlib.sha256(open(f, "rb").read()).hexdigest()
+    return res
 
 
 # -------------------------------------------------------------------- build of harness / driver
@@ -348,7 +397,7 @@ def build_driver(ctx):
         newest = 0
         for dp, _, fs in os.walk(os.path.join(COQ, "theories")):
             for fn in fs:
-                if fn.endswith(".v") and ("/Model" in dp or "/Spec" in dp or "/Sat" in dp or "/Extract" in dp):
+                if fn.endswith(".v") and ("/Model" in dp or "/Spec" in dp or "/Sat" in dp or "/Extract" in dp or fn.endswith("Defs.v")):
                     newest = max(newest, os.path.getmtime(os.path.join(dp, fn)))
         for fn in os.listdir(DRIVER):
             if fn.endswith(".ml") or fn == "build.sh":
@@ -425,27 +474,31 @@ def run_parallel(cmds, timeout):
     env.update({"LC_ALL": "C"})
     while nxt < len(cmds) or procs:
         while nxt < len(cmds) and len(procs) < NCPU:
-            p = subprocess.Popen(cmds[nxt], shell=True, stdout=subprocess.PIPE, stderr=subprocess.STDOUT,
-                                 universal_newlines=True, errors="replace", env=env,
+            # the child's own output goes to a temporary file (a pipe read only after exit would block a chatty child)
+            f = tempfile.TemporaryFile(mode="w+", errors="replace")
+            p = subprocess.Popen(cmds[nxt], shell=True, stdout=f, stderr=subprocess.STDOUT, env=env,
                                  start_new_session=True, preexec_fn=_limit_child)
-            procs[nxt] = p
+            procs[nxt] = (p, f)
             nxt += 1
-        done = [i for i, p in procs.items() if p.poll() is not None]
+        done = [i for i, (p, f) in procs.items() if p.poll() is not None]
         for i in done:
-            p = procs.pop(i)
-            res[i] = (p.returncode, p.stdout.read())
+            p, f = procs.pop(i)
+            f.seek(0)
+            res[i] = (p.returncode, f.read()[-200000:])
+            f.close()
         if not done:
             if time.time() > t_end:
-                for i, p in procs.items():
+                for i, (p, f) in procs.items():
                     try:
                         os.killpg(p.pid, 9)      # the shell AND the harness / driver it started
                     except OSError:
                         p.kill()
                     res[i] = (124, "[timeout]")
+                    f.close()
                 procs = {}
                 break
             time.sleep(0.02)
-    return res
+    return [r if r is not None else (124, "[not started: timeout of the batch]") for r in res]
 
 
 def run_mode(ctx, harness, driver, mode, total, shards=NCPU, extra="", drv_modes=None, timeout=1500, seed_offset=0, tag=None):
